@@ -205,10 +205,11 @@ Record st := mkSt {
   ctxs : list ctx;                      (* Driver.contexts *)
   next_pid : N;
   crashed : bool;
-  g_bufs : list (key * N)               (* ghost: every buffer ever returned *)
+  g_bufs : list (key * N);              (* ghost: every buffer ever returned *)
+  g_leaked : list N                     (* ghost: physical pages dropped by migration preparation *)
 }.
 #[export] Instance eta_st : Settable _ :=
-  settable! mkSt <lps; devs; total; mirror; pt; allocs; next_va; ctxs; next_pid; crashed; g_bufs>.
+  settable! mkSt <lps; devs; total; mirror; pt; allocs; next_va; ctxs; next_pid; crashed; g_bufs; g_leaked>.
 
 Definition psz (s : st) : N := 2 ^ lps s.
 
@@ -262,7 +263,8 @@ Definition alloc_pages (n : N) (pid : N) (dv : nat) (uni : bool) (s : st) : opti
 Definition allocate (pid bytes : N) (dv : nat) (uni : bool) (s : st) : option (N * st) :=
   if bytes =? 0 then None else alloc_pages (num_pages (psz s) bytes) pid dv uni s.
 
-(** allocateMultiplePagesWithGivenVAddrs: the loop over the pages *)
+(** allocateMultiplePagesWithGivenVAddrs: the loop over the pages.  The
+    physical page the virtual page had before goes back to its device. *)
 Fixpoint given_loop (pid va : N) (uni : bool) (pas : list N) (s : st) : option st :=
   match pas with
   | [] => Some s
@@ -274,8 +276,16 @@ Fixpoint given_loop (pid va : N) (uni : bool) (pas : list N) (s : st) : option s
       match pt_update (pid, va) pg (pt s) with
       | None => None
       | Some pt' =>
-        given_loop pid (va + psz s) uni r
-          (s <| mirror := aset keqb (pid, va) pg (mirror s) |> <| pt := pt' |>)
+        let s1 := s <| mirror := aset keqb (pid, va) pg (mirror s) |> <| pt := pt' |> in
+        match alookup keqb (pid, va) (mirror s) with
+        | None => given_loop pid (va + psz s) uni r s1
+        | Some old =>
+          match dev_of_pa (devs s) (p_pa old) with
+          | None => None
+          | Some dj => given_loop pid (va + psz s) uni r
+                         (s1 <| devs := push_to dj (p_pa old) (devs s) |>)
+          end
+        end
       end
     end
   end.
@@ -289,7 +299,9 @@ Definition remap (pid va bytes : N) (dv : nat) (s : st) : option st :=
   | Some (pas, l') => given_loop pid va false pas (s <| devs := l' |>)
   end.
 
-(** AllocatePageWithGivenVAddr *)
+(** AllocatePageWithGivenVAddr (page migration).  The previous physical page
+    is NOT given back: it is the source of the migration copy; the ghost list
+    [g_leaked] remembers it. *)
 Definition alloc_given (pid : N) (dv : nat) (va : N) (uni : bool) (s : st) : option (page * st) :=
   match alloc_page (psz s) dv (devs s) with
   | None => None
@@ -300,7 +312,12 @@ Definition alloc_given (pid : N) (dv : nat) (va : N) (uni : bool) (s : st) : opt
       let pg := mkPage pid va pa (N.of_nat di) uni in
       match pt_update (pid, va) pg (pt s) with
       | None => None
-      | Some pt' => Some (pg, s <| devs := l' |> <| mirror := aset keqb (pid, va) pg (mirror s) |> <| pt := pt' |>)
+      | Some pt' =>
+        Some (pg, s <| devs := l' |> <| mirror := aset keqb (pid, va) pg (mirror s) |> <| pt := pt' |>
+                    <| g_leaked := match alookup keqb (pid, va) (mirror s) with
+                                   | Some old => p_pa old :: g_leaked s
+                                   | None => g_leaked s
+                                   end |>)
       end
     end
   end.
@@ -498,7 +515,7 @@ Definition reg_dev (k : kind) (size : N) (s : st) : st :=
 
 Definition init (l : N) (gpus : list N) : st :=
   fold_left (fun s n => reg_dev KGpu (n * 2 ^ l) s) gpus
-    (reg_dev KCpu CPU_BYTES (mkSt l [] (2 ^ l) [] [] [] [] [] 0 false [])).
+    (reg_dev KCpu CPU_BYTES (mkSt l [] (2 ^ l) [] [] [] [] [] 0 false [] [])).
 
 (** * Correspondence with a recorded run of the implementation *)
 Definition obs_eqb (a b : obs) : bool :=
